@@ -390,7 +390,57 @@ def run(ctx):
     for target in ('receiver', 'query'):
       recs.append(record(e13, [('global', 'othermod')], b'cverif_canary\nfire\n)R.', target,
                          'carbon.conf [cache] USE_INSECURE_UNPICKLER = %s, [cache:b] USE_INSECURE_UNPICKLER = %s (instance b)' % (base_val, inst_val)))
+  # history: connections were accepted while the insecure unpickler was switched on (plain datapoints only); the switch
+  # is off for the connections that follow - they get the restricted unpickler
+  e13.wm.settings['USE_INSECURE_UNPICKLER'] = True
+  plain = pickle.dumps([('a.b', (1.0, 2.0))], protocol=2)
+  for cls_name, payload in (('MetricPickleReceiver', plain), ('CacheManagementHandler', pickle.dumps(dict(type='cache-query', metric='a.b'), protocol=2))):
+    r = getattr(e13.wm.protocols, cls_name)()
+    try:
+      r.makeConnection(StringTransport())
+      r.dataReceived(struct.pack('!L', len(payload)) + payload)
+    except Exception:
+      pass
+    try:
+      e13.wm.state.connectedMetricReceiverProtocols.discard(r)
+    except Exception:
+      pass
   e13.wm.settings['USE_INSECURE_UNPICKLER'] = False
+  for target in ('receiver', 'query'):
+    recs.append(record(e13, [('global', 'othermod')], b'cverif_canary\nfire\n)R.', target,
+                       'a connection accepted after earlier ones had been served in insecure mode'))
+  # the same history in a FRESH process, where the insecure connection is the very first one the daemon serves
+  import subprocess
+  import json as _json
+  child = r'''
+import sys, json, pickle, struct, types
+sys.path[:0] = %r
+from harness import c13
+ctx = types.SimpleNamespace(scratch=%r)
+e13 = c13.Env13(ctx)
+from twisted.internet.testing import StringTransport
+e13.wm.settings['USE_INSECURE_UNPICKLER'] = True
+for cls_name, payload in (('MetricPickleReceiver', pickle.dumps([('a.b', (1.0, 2.0))], protocol=2)),
+                          ('CacheManagementHandler', pickle.dumps(dict(type='cache-query', metric='a.b'), protocol=2))):
+  r = getattr(e13.wm.protocols, cls_name)()
+  try:
+    r.makeConnection(StringTransport())
+    r.dataReceived(struct.pack('!L', len(payload)) + payload)
+  except Exception:
+    pass
+  e13.wm.state.connectedMetricReceiverProtocols.discard(r)
+e13.wm.settings['USE_INSECURE_UNPICKLER'] = False
+out = []
+for target in ('receiver', 'query'):
+  out.append(c13.record(e13, [('global', 'othermod')], b'cverif_canary\nfire\n)R.', target,
+                        'first connections of a fresh process served in insecure mode, then the switch is off'))
+print('RECS ' + json.dumps(out))
+''' % ([p_ for p_ in sys.path if p_], ctx.scratch)
+  pr = subprocess.run([sys.executable, '-c', child], capture_output=True, text=True, timeout=300, cwd=ctx.scratch)
+  got = [l for l in pr.stdout.splitlines() if l.startswith('RECS ')]
+  if not got:
+    raise Machinery('C13 history child gave no result: %s' % (pr.stdout[-500:] + pr.stderr[-1500:]))
+  recs.extend(_json.loads(got[-1][5:]))
   # C. exhaustive lookup sweep over loaded modules
   pairs = []
   for mname in sorted(sys.modules):
